@@ -250,3 +250,24 @@ package vm
 //@   ensures tree-grows: evm.tracer.callTree.count >= old(evm.tracer.callTree.count)
 //@   modifies *
 //@ end
+
+// C17 / C16 / C02 / C15: the per-fork instruction tables are package-level and shared by every EVM instance of the
+// process. NewEVMInterpreter may hand a table to EnableEIP (which rewrites entries in place) only after replacing it
+// by a private deep copy: at every EnableEIP call the table is an object allocated by this activation.
+//@ func vm.copyJumpTable(source) (out)
+//@   trusted
+//@   kind fresh
+//@   ensures private-copy: out != nil && fresh(out)
+//@   modifies nothing
+//@ end
+//@ func vm.EnableEIP(eipNum, jt) (err)
+//@   trusted
+//@   modifies *
+//@ end
+//@ func vm.NewEVMInterpreter(evm) (out)
+//@   verify
+//@   properties C02 C15 C16 C17
+//@   requires recv: evm != nil
+//@   assertcall vm.EnableEIP only-a-private-table-is-rewritten: fresh($1)
+//@   modifies *
+//@ end
